@@ -105,6 +105,9 @@ def _build_bv(tu, unit, workdir, contract_override=None):
         unit.stubs = {q: b for q, b in unit.stub_factory(tu).items() if q in tu.by_qname and tu.by_qname[q].body is not None}
     # replaced callees: prototype + contract; inlined: bodies
     bodies = [unit.target] + [b for b in unit.bodies if b != unit.target]
+    for pref in getattr(unit, "optional_bodies", ()):
+        # helper functions that may or may not exist in the working tree (included with their real bodies when they do)
+        bodies += [q for q, f_ in sorted(tu.by_qname.items()) if q.startswith(pref) and f_.body is not None and q not in bodies]
     callee_contracts = {q: contracts[q] for q in unit.replace}
     src, em = cxx2c.build_unit(tu, workdir, bodies, contracts=callee_contracts, loop_contracts=unit.loop_contracts,
                                spec_prelude=bvspec.prelude() + unit.spec_prelude, ghost=unit.ghost, stubs=getattr(unit, "stubs", None))
